@@ -129,6 +129,22 @@ def check(ctx):
         else:
             ctx.ok(R, "C16/no-peer-await-in-accept-loop/ok/" + "->".join(x[1].split("::")[-1] for x in ch), ch[-1][0],
                    "inline await %s does not read from an accepted peer" % short_leaf)
+    # inside the connection task: no wait on a synchronisation object shared between connections (a global semaphore, a mutex
+    # held across client I/O): one stalled client must not be able to hold what another client waits for
+    SHARED_WAITS = ("Semaphore::acquire", "Semaphore::acquire_owned", "Semaphore::acquire_many", "Mutex::<T>::lock", "Mutex::lock", "RwLock::<T>::write",
+                    "Notify::notified", "Barrier::wait", "mpsc::Sender::<T>::send", "mpsc::Sender::<T>::reserve", "OwnedSemaphorePermit", "Semaphore::acquire_many_owned")
+    if H.task is not None:
+        for ch in inline_chains(ctx, H.task):
+            leaf = ch[-1][1].replace("select!:", "")
+            in_protocol = all(not x[1].startswith(("passage_adapters", "DiscoveryAdapter", "StatusAdapter", "AuthenticationAdapter", "FilterAdapter",
+                                                   "StrategyAdapter", "LocalizationAdapter")) for x in ch)
+            if in_protocol and any(leaf.endswith(w) or ("::" + w) in leaf for w in SHARED_WAITS):
+                n_bad += 1
+                ctx.fail(R, "C16/no-shared-wait-in-connection/" + "->".join(x[1].split("::")[-1] for x in ch), ch[-1][0],
+                         "a connection task awaits %s: a synchronisation object shared between connections; clients that stall while holding it "
+                         "(their reads are client-paced) delay every other client that needs it" % " -> ".join("%s@%s" % (x[1], x[0]) for x in ch),
+                         witness=["%s @ %s" % (x[1], x[0]) for x in ch])
+    ctx.ok(R, "C16/no-shared-wait-in-connection/scan", "", "awaits of the connection task scanned for shared synchronisation objects")
     # the connection handler itself must be in the spawned task, not inline
     if H.task is not None:
         tch = inline_chains(ctx, H.task)
